@@ -14,7 +14,7 @@ the whole world exactly as it was.
 from egsim import engine, gen
 from egsim.props import common
 
-KINDS = gen.UNIVERSE_MUTATORS + ["mk_vertex"]
+KINDS = gen.UNIVERSE_MUTATORS + ["mk_vertex", "mk_edge"]
 
 
 def check_membership(snap):
@@ -93,7 +93,8 @@ class C02(common.ModelProperty):
         cfg["max_vertices"] = cfg["nv"] + cfg["nu"] + rng.choice([0, 1, 3])
         cfg["max_universes"] = cfg["nu"] + rng.choice([0, 1, 2])
         cfg["p_alias"] = rng.choice([0.05, 0.15, 0.3, 0.5])
-        cfg["p_none"] = 0.0
+        cfg["p_none"] = rng.choice([0.0, 0.2, 0.4])  # half-built edges (an end still None) on members
+        cfg["max_links"] = 4
         cfg["nested_universes"] = rng.random() < 0.75
         cfg["vertex_classes"] = rng.choice([["Vertex"], ["Vertex", "SubVertex"]])
         cfg["universe_classes"] = rng.choice(
